@@ -18,7 +18,8 @@ vars == <<stage, scr>>
 Styles == {[ws |-> 0, kw |-> 0, quote |-> FALSE], [ws |-> 1, kw |-> 1, quote |-> TRUE], [ws |-> 2, kw |-> 2, quote |-> FALSE],
            [ws |-> 0, kw |-> 2, quote |-> TRUE], [ws |-> 1, kw |-> 0, quote |-> FALSE], [ws |-> 2, kw |-> 1, quote |-> TRUE],
            [ws |-> 0, kw |-> 0, quote |-> TRUE, esc |-> 1], [ws |-> 1, kw |-> 1, quote |-> FALSE, esc |-> 1],
-           [ws |-> 0, kw |-> 0, quote |-> FALSE, nesc |-> 1], [ws |-> 1, kw |-> 0, quote |-> FALSE, nesc |-> 2]}
+           [ws |-> 0, kw |-> 0, quote |-> FALSE, nesc |-> 1], [ws |-> 1, kw |-> 0, quote |-> FALSE, nesc |-> 2],
+           [ws |-> 0, kw |-> 0, quote |-> FALSE, nesc |-> 3], [ws |-> 0, kw |-> 0, quote |-> FALSE, nesc |-> 4]}
 Plain == [ws |-> 0, kw |-> 0, quote |-> FALSE]
 
 \* number literals with their lexemes: unsigned, negative, fractional, exponent
@@ -121,7 +122,8 @@ KpLists == UNION {[1..k -> KpElems] : k \in 0..2} \cup {<<[i |-> 1], [n |-> ka],
 KpParse(text, want) == [op |-> "kp_parse", raw |-> <<text>>, a |-> [want |-> want, plain |-> IF KpPlain(want) THEN 1 ELSE 0]]
 KpErr(text) == [op |-> "kp_parse", raw |-> <<text>>, a |-> [expect |-> "err"]]
 EmitKp == \E kp \in KpLists, st \in {Plain, [ws |-> 1, kw |-> 0, quote |-> FALSE], [ws |-> 2, kw |-> 0, quote |-> FALSE], [ws |-> 0, kw |-> 0, quote |-> FALSE, esc |-> 1],
-               [ws |-> 0, kw |-> 0, quote |-> FALSE, nesc |-> 1], [ws |-> 1, kw |-> 0, quote |-> FALSE, nesc |-> 2]} : Out(KpParse(KeyPathText(kp, st), kp))
+               [ws |-> 0, kw |-> 0, quote |-> FALSE, nesc |-> 1], [ws |-> 1, kw |-> 0, quote |-> FALSE, nesc |-> 2],
+               [ws |-> 0, kw |-> 0, quote |-> FALSE, nesc |-> 3], [ws |-> 0, kw |-> 0, quote |-> FALSE, nesc |-> 4]} : Out(KpParse(KeyPathText(kp, st), kp))
 EmitKpFaults ==
   \E kp \in KpLists :
     LET t == KeyPathText(kp, Plain)
@@ -168,6 +170,28 @@ EmitAstral == \E n \in AstralNames, st \in AstralStyles :
                 \/ Out(Parse1(PathTextOf(<<Root, Dot(n)>>, st, LitFL), <<Root, Dot(n)>>))
                 \/ Out(Parse1(PathTextOf(<<Root, ObjF(n), Colon(n)>>, st, LitFL), <<Root, ObjF(n), Colon(n)>>))
                 \/ LET ps == <<Root, FilterSt(EBin("eq", EPaths(<<Cur>>), EVal(PStr(n))))>> IN Out(Parse1(PathTextOf(ps, st, LitFL), ps))
+\* \u escapes with one byte that is not a hexadecimal digit (the neighbours of the digit ranges, signs, space), in
+\* each of the four positions, plain and braced: never a name
+NotHex == {43, 45, 32, 47, 58, 64, 71, 96, 103, 120}
+BadEsc(c, k, br) == LET u == [i \in 1..4 |-> IF i = k THEN c ELSE <<48, 48, 52, 49>>[i]] IN IF br THEN (<<92, 117, 123>> \o u) \o <<125>> ELSE <<92, 117>> \o u
+EmitBadEsc == \E c \in NotHex, k \in 1..4, br \in BOOLEAN :
+                 \/ Out(ParseErr((<<36, 46, 34>> \o BadEsc(c, k, br)) \o <<34>>))        \* $."\u+041"
+                 \/ Out(ParseErr((<<36, 46, 97>> \o BadEsc(c, k, br))))                  \* $.a\u+041
+                 \/ Out([op |-> "kp_parse", raw |-> <<(<<123, 34>> \o BadEsc(c, k, br)) \o <<34, 125>>>>, a |-> [expect |-> "err"]])
+\* integers at and beyond the ends of the i32 range wherever the path languages take a number
+ExtNums == {<<50,49,52,55,52,56,51,54,52,55>>, <<50,49,52,55,52,56,51,54,52,56>>, <<45,50,49,52,55,52,56,51,54,52,56>>, <<45,50,49,52,55,52,56,51,54,52,57>>,
+            <<45,50,49,52,55,52,56,51,54,52,55>>, <<52,50,57,52,57,54,55,50,57,54>>, <<57,50,50,51,51,55,50,48,51,54,56,53,52,55,55,53,56,48,56>>,
+            <<45,48>>, <<43,49>>, <<48>>}
+Kw(l) == <<108, 97, 115, 116>> \o l
+EmitExtremeText ==
+  \E n \in ExtNums, m \in ExtNums :
+     \/ Out(ParseAny("jp_parse", (<<36, 91>> \o n) \o <<93>>))
+     \/ Out(ParseAny("jp_parse", (<<36, 91>> \o Kw(<<45>> \o n)) \o <<93>>)) \/ Out(ParseAny("jp_parse", (<<36, 91>> \o Kw(<<32, 45, 32>> \o n)) \o <<93>>))
+     \/ Out(ParseAny("jp_parse", (<<36, 91>> \o Kw(<<43>> \o n)) \o <<93>>)) \/ Out(ParseAny("jp_parse", (<<36, 91>> \o Kw(<<32, 43, 32>> \o n)) \o <<93>>))
+     \/ Out(ParseAny("jp_parse", ((<<36, 91>> \o n) \o <<32, 116, 111, 32>> \o m) \o <<93>>))
+     \/ Out(ParseAny("jp_parse", ((<<36, 91>> \o Kw(<<45>> \o n)) \o <<32, 116, 111, 32>> \o Kw(<<43>> \o m)) \o <<93>>))
+     \/ Out(ParseAny("jp_parse", (<<36, 63, 40, 64, 62>> \o n) \o <<41>>))
+     \/ Out(ParseAny("kp_parse", (<<123>> \o n) \o <<125>>)) \/ Out(ParseAny("kp_parse", ((<<123, 97, 44>> \o n) \o <<44>> \o m) \o <<125>>))
 EmitOdd == (\E t \in OddPathTexts : Out(ParseAny("jp_parse", t))) \/ (\E t \in OddKpTexts : Out(ParseAny("kp_parse", t)))
 \* every byte-prefix of the odd texts and of renderings that carry escapes: input may stop anywhere
 EscStyles == {[ws |-> 0, kw |-> 0, quote |-> FALSE, nesc |-> 1], [ws |-> 0, kw |-> 0, quote |-> FALSE, nesc |-> 2], [ws |-> 0, kw |-> 0, quote |-> TRUE, esc |-> 1]}
@@ -182,7 +206,8 @@ Next ==
   /\ stage = "start"
   /\ CASE Family = "paths" -> EmitPaths
        [] Family = "pathfaults" -> EmitPathFaults \/ EmitPredFaults
-       [] Family = "soup" -> EmitSoup \/ EmitSoup2 \/ EmitOdd \/ EmitPrefixes \/ EmitAstral
+       [] Family = "soup" -> EmitSoup \/ EmitSoup2 \/ EmitOdd \/ EmitPrefixes \/ EmitAstral \/ EmitBadEsc
+       [] Family = "extreme" -> EmitExtremeText
        [] Family = "kp" -> EmitKp \/ EmitLatin
        [] Family = "kpfaults" -> EmitKpFaults
        [] OTHER -> FALSE
